@@ -141,8 +141,9 @@ def correspondence(pid, tier, seed):
         broken.append('solver correspondence: a case file did not evaluate: ' + errs[0][1][-300:])
     if timeouts:
         broken.append(f'solver correspondence: {timeouts} scenario(s) did not terminate on the implementation within the time limit')
-    plain_mismatch = any(len([op for op in scs2[g]['ops'] if op[0] == 'run']) == 1 and not any(op[0] in ('reset', 'newsolver') for op in scs2[g]['ops'])
-                         for g, _, _ in mism)
+    plain_mismatch = False
+    if pid == 'C12' and mism:
+        plain_mismatch = not schedule_specific([scs2[g] for g, _, _ in mism[:12]])
     mine = [(g, c, k) for g, c, k in mism if concerns(pid, scs2[g], res2[g], c, k, plain_mismatch)]
     failing = []
     if mine:
@@ -199,6 +200,24 @@ def grid_correspondence(seed, n):
     return broken, len(items)
 
 
+def schedule_specific(scs):
+    """do some of these disagreeing scenarios AGREE once cut down to their first run?  (then the disagreement needs the schedule)"""
+    cut = []
+    for sc in scs:
+        ops = []
+        for op in sc['ops']:
+            ops.append(op)
+            if op[0] == 'run':
+                break
+        if len(ops) < len(sc['ops']):
+            cut.append(dict(sc, ops=ops))
+    if not cut:
+        return False
+    res = execute(cut)
+    mism, errs = compare('solver_cut', cut, res)
+    return len(mism) < len(cut)
+
+
 def long_grid_scenarios(rng, n):
     """C11: decimal steps with thousands of instants on a minimal chain (the arithmetic of the grid, not the physics)"""
     out = []
@@ -249,7 +268,7 @@ def search(pid, tier, seed, escalate, hints):
                     out += O.c14_check(sc, r)
             except Exception:  # noqa
                 out.append(O.W('oracle-crash', 'the oracle could not read the recorded history: ' + traceback.format_exc()[-600:], sc))
-        if pid == 'C12' and n_checked <= (60 if tier == 'quick' else 600) * (3 if escalate else 1):
+        if pid == 'C12' and n_checked <= (40 if tier == 'quick' else 500) * (3 if escalate else 1):
             out += O.c12_check(sc, rng)
         if len([w for w in out if w['cls'] not in ('D4',)]) >= 5:
             break
